@@ -135,3 +135,12 @@ Definition step (st : table * N) (ev : event) : (table * N) * option route :=
 Definition run (evs : list event) : (table * N) * list (option route * N) :=
   fold_left (fun '(st, out) ev => let '(st', r) := step st ev in (st', out ++ [(r, N.of_nat (length (fst st')))]))
             evs (([], 1000), []).
+
+
+(* ClientTsx::send / ClientInvTsx::send as the table sees them: the transaction is registered and the request is handed to the
+   transport; from the moment the request is on the wire answers can come back - also while the caller is still inside send
+   ([during]) - and later ([after]).  [tsx_client_registers_before_send] (Gen.Tables) says which comes first in the source. *)
+Definition client_send_events (k : key) (id : N) (during after : list msg) : list event :=
+  if tsx_client_registers_before_send
+  then ClientStart k id :: map Recv during ++ map Recv after
+  else map Recv during ++ ClientStart k id :: map Recv after.
